@@ -19,9 +19,17 @@ anything else does): the simple statements and the conditions, each of which is 
 `SectionIR.lean` (the table `STATEMENTS` / `CONDITIONS` below gives the Python text of each).
 Everything else is a GAP: reported, and rendered as `unsupported` so that the equivalence proof in
 `Props/C16Gen.lean` cannot go through.  Both files must give the same translation.
+
+Robustness round: before the match, every function goes through a NORMALISATION (`normalise_function`, section
+"normal form" below) that maps equivalent surface shapes of the same statement to one shape, and the match itself is
+made MODULO A BIJECTIVE RENAMING OF THE FUNCTION'S LOCAL VARIABLES (`Unifier`).  Every rewrite is semantics-preserving
+for all inputs (the reason is given at each rule); what no rule recognises is still refused.  The vocabulary goes
+through the same normal form, so the generated Lean text does not depend on which of the equivalent shapes the source
+uses.
 """
 import ast
 import os
+import re
 import sys
 
 TARGETS = ["create_unbranched_segment_group_branches", "__sectionise"]
@@ -72,38 +80,659 @@ def _dump(node):
     return ast.dump(node, include_attributes=False)
 
 
-def _mangle(src):
-    # inside `class Cell` the compiler mangles `self.__sectionise`; ast does not -- nothing to do, but keep one place
-    return src
+# what the canonical (today's) functions bind besides their parameters; a source local is matched to one of these
+CANON_LOCALS = {
+    "create_unbranched_segment_group_branches": ["morph_tree", "seg", "num_seg_groups", "group_name", "new_seg_group"],
+    "__sectionise": ["todo", "seg", "group_name", "children", "child"],
+}
+ALL_VARS = set(sum(CANON_LOCALS.values(), [])) | set(sum(PARAMS.values(), []))
+# runs of consecutive canonical statements whose single-use locals the normal form inlines (see `_inline_temps`):
+# the normal form of the run is ONE statement, which stands for all primitives of the run, in this order
+CHAINS = [
+    ["numSegGroups", "groupNameNum", "addUnbranchedNewSegGroup", "(callSectionise sectionise)"],
+    ["groupNameCountMinus1", "addUnbranchedSegGroup"],
+]
+RUNS = [c[i:j] for c in CHAINS for i in range(len(c)) for j in range(i + 2, len(c) + 1)]
+
+# ------------------------------------------------------------------------------------------------ normal form
+#
+# Every rule rewrites a function into one with the same behaviour for ALL inputs (same effects in the same order,
+# same value / exception), under the assumptions stated at the rule.  Rules only ever fire on the shapes they name;
+# anything else is left alone and is then refused by the vocabulary match.
+
+_MIRROR = {ast.Eq: ast.Eq, ast.NotEq: ast.NotEq, ast.Lt: ast.Gt, ast.Gt: ast.Lt, ast.LtE: ast.GtE, ast.GtE: ast.LtE}
+_NEGATE_ALWAYS = {ast.In: ast.NotIn, ast.NotIn: ast.In, ast.Is: ast.IsNot, ast.IsNot: ast.Is}
+_NEGATE_INT = {ast.Eq: ast.NotEq, ast.NotEq: ast.Eq, ast.Lt: ast.GtE, ast.GtE: ast.Lt, ast.Gt: ast.LtE, ast.LtE: ast.Gt}
 
 
-STMT_DUMPS = {_dump(ast.parse(_mangle(src)).body[0]): name for name, src in STATEMENTS.items()}
-COND_DUMPS = {_dump(ast.parse(src, mode="eval").body): name for name, src in CONDITIONS.items()}
-ITER_DUMPS = {_dump(ast.parse(src, mode="eval").body): name for name, src in ITERABLES.items()}
+def _is_len_call(e):
+    """`len(<expr>)`: the builtin always returns an `int` (a local named `len` is refused by the matcher later)"""
+    return (isinstance(e, ast.Call) and isinstance(e.func, ast.Name) and e.func.id == "len" and len(e.args) == 1
+            and not e.keywords and not isinstance(e.args[0], ast.Starred))
+
+
+def _is_int_const(e):
+    return isinstance(e, ast.Constant) and type(e.value) is int
+
+
+def _fv(e):
+    return ast.FormattedValue(value=e, conversion=-1, format_spec=None)
+
+
+def _joined(parts):
+    """parts: str | expression -> the JoinedStr `ast.parse` gives for the f-string (adjacent text merged, no empty text)"""
+    vals = []
+    for p in parts:
+        if isinstance(p, str):
+            if not p:
+                continue
+            if vals and isinstance(vals[-1], ast.Constant):
+                vals[-1] = ast.Constant(value=vals[-1].value + p)
+            else:
+                vals.append(ast.Constant(value=p))
+        else:
+            vals.append(p)
+    return ast.JoinedStr(values=vals)
+
+
+class _ExprNorm(ast.NodeTransformer):
+    """expression-level rules (bottom-up)"""
+
+    def visit_UnaryOp(self, node):
+        self.generic_visit(node)
+        c = node.operand
+        if isinstance(node.op, ast.Not) and isinstance(c, ast.Compare) and len(c.ops) == 1:
+            op = type(c.ops[0])
+            # `not a in b` = `a not in b`, `not a is b` = `a is not b`: that is how Python DEFINES `not in` / `is not`
+            if op in _NEGATE_ALWAYS:
+                return ast.Compare(left=c.left, ops=[_NEGATE_ALWAYS[op]()], comparators=c.comparators)
+            # `not len(x) == K` = `len(x) != K` (and <, >, ...): both operands are `int`s (len() result, int literal),
+            # for which the comparison operators are each other's exact negations.  Not done for arbitrary operands
+            # (a class may define `__eq__` and `__ne__` inconsistently).
+            if op in _NEGATE_INT and _is_len_call(c.left) and _is_int_const(c.comparators[0]):
+                return self.visit_Compare(ast.Compare(left=c.left, ops=[_NEGATE_INT[op]()], comparators=c.comparators),
+                                          again=True)
+        return node
+
+    def visit_Compare(self, node, again=False):
+        if not again:
+            self.generic_visit(node)
+        if len(node.ops) != 1:
+            return node
+        left, op, right = node.left, type(node.ops[0]), node.comparators[0]
+        # `K op len(x)` = `len(x) op' K`: two ints, the mirrored operator gives the same truth value
+        if _is_int_const(left) and _is_len_call(right) and op in _MIRROR:
+            left, op, right = right, _MIRROR[op], left
+        if _is_len_call(left) and _is_int_const(right):
+            k = right.value
+            # integers: n >= k  =  n > k-1;  n < k  =  n <= k-1 is not needed.  len() >= 0:  n != 0  =  n > 0
+            if op is ast.GtE:
+                op, k = ast.Gt, k - 1
+            elif op is ast.NotEq and k == 0:
+                op = ast.Gt
+            elif op is ast.Lt:
+                op, k = ast.LtE, k - 1
+            if k < 0:
+                return node
+            return ast.Compare(left=left, ops=[op()], comparators=[ast.Constant(value=k)])
+        return node
+
+    # --- the three other spellings of an f-string whose fields have no conversion and no format spec
+    def visit_BinOp(self, node):
+        self.generic_visit(node)
+        # "..%s.." % (a, b): every spec is a plain %s, arguments given as a tuple DISPLAY (so the count is known and a
+        # tuple-valued single argument cannot be mistaken for the argument list).  `%s` is str(x), an f-string field is
+        # format(x, "") -- equal for every type that does not override __format__ (int, str, float, bool, None, numpy
+        # scalars; the values here are len() results and segment ids).  ASSUMPTION recorded in the notes.
+        if isinstance(node.op, ast.Mod) and isinstance(node.left, ast.Constant) and isinstance(node.left.value, str):
+            pieces = re.split(r"(%[%s])", node.left.value)
+            texts, specs = pieces[0::2], pieces[1::2]
+            if any("%" in t for t in texts):
+                return node                                    # some other conversion: not touched
+            if isinstance(node.right, ast.Tuple) and not any(isinstance(e, ast.Starred) for e in node.right.elts):
+                args = list(node.right.elts)
+            elif _is_len_call(node.right) or _is_int_const(node.right):
+                args = [node.right]
+            else:
+                return node
+            if sum(1 for p in specs if p == "%s") != len(args):
+                return node
+            parts, it = [], iter(args)
+            for k, p in enumerate(pieces):
+                parts.append(p if k % 2 == 0 else ("%" if p == "%%" else _fv(next(it))))
+            return _joined(parts)
+        # "seg_group_" + str(n) + "_seg_" + str(i): text pieces and str(x) calls only (same remark on str / format)
+        if isinstance(node.op, ast.Add):
+            leaves = []
+
+            def flat(e):
+                if isinstance(e, ast.BinOp) and isinstance(e.op, ast.Add):
+                    flat(e.left)
+                    flat(e.right)
+                else:
+                    leaves.append(e)
+            flat(node)
+            parts = []
+            for e in leaves:
+                if isinstance(e, ast.Constant) and isinstance(e.value, str):
+                    parts.append(e.value)
+                elif (isinstance(e, ast.Call) and isinstance(e.func, ast.Name) and e.func.id == "str" and len(e.args) == 1
+                      and not e.keywords and not isinstance(e.args[0], ast.Starred)):
+                    parts.append(_fv(e.args[0]))
+                elif isinstance(e, ast.JoinedStr):
+                    parts.extend(v.value if isinstance(v, ast.Constant) else v for v in e.values)
+                else:
+                    return node
+            if any(not isinstance(p, str) for p in parts):
+                return _joined(parts)
+        return node
+
+    def visit_Call(self, node):
+        self.generic_visit(node)
+        # "..{}..".format(a, b) with automatic (or explicit positional, each used once in order) empty fields: str.format
+        # calls format(arg, "") for each field, exactly what the f-string does, arguments evaluated left to right
+        f = node.func
+        if (isinstance(f, ast.Attribute) and f.attr == "format" and isinstance(f.value, ast.Constant)
+                and isinstance(f.value.value, str) and not node.keywords
+                and not any(isinstance(a, ast.Starred) for a in node.args)):
+            import string
+            try:
+                fields = list(string.Formatter().parse(f.value.value))
+            except ValueError:
+                return node
+            parts, k = [], 0
+            for text, name, spec, conv in fields:
+                parts.append(text)
+                if name is None:
+                    continue
+                if spec or conv or name not in ("", str(k)) or k >= len(node.args):
+                    return node
+                parts.append(_fv(node.args[k]))
+                k += 1
+            if k != len(node.args):
+                return node
+            return _joined(parts)
+        return node
+
+    def visit_JoinedStr(self, node):
+        self.generic_visit(node)
+        return _joined([v.value if isinstance(v, ast.Constant) and isinstance(v.value, str) else v for v in node.values])
+
+
+def _names(node, ident):
+    return [n for n in ast.walk(node) if isinstance(n, ast.Name) and n.id == ident]
+
+
+def _always_leaves(stmts):
+    """control never falls out of the end of this block"""
+    if not stmts:
+        return False
+    last = stmts[-1]
+    if isinstance(last, (ast.Return, ast.Raise, ast.Continue, ast.Break)):
+        return True
+    if isinstance(last, ast.If) and last.orelse:
+        return _always_leaves(last.body) and _always_leaves(last.orelse)
+    return False
+
+
+def _events(node):
+    """sub-expressions of a simple statement in Python's evaluation order: ("load", id) | ("pure",) for constants and
+    attribute look-ups | ("effect",) for everything that may run code or raise | ("cond",) for parts evaluated only
+    sometimes and for anything this function does not know"""
+    if node is None:
+        return
+    if isinstance(node, ast.Assign):
+        yield from _events(node.value)
+        for t in node.targets:
+            yield from _events(t)
+    elif isinstance(node, (ast.Expr, ast.Return)):
+        yield from _events(node.value)
+    elif isinstance(node, ast.Name):
+        if isinstance(node.ctx, ast.Load):
+            yield ("load", node.id)
+    elif isinstance(node, ast.Constant):
+        yield ("pure",)
+    elif isinstance(node, ast.Attribute):
+        yield from _events(node.value)
+        yield ("pure",) if isinstance(node.ctx, ast.Load) else ("effect",)
+    elif isinstance(node, ast.Call):
+        yield from _events(node.func)
+        for a in node.args:
+            if isinstance(a, ast.Starred):
+                yield ("cond",)
+            yield from _events(a)
+        for k in node.keywords:
+            if k.arg is None:
+                yield ("cond",)
+            yield from _events(k.value)
+        yield ("effect",)
+    elif isinstance(node, ast.BinOp):
+        yield from _events(node.left)
+        yield from _events(node.right)
+        yield ("effect",)
+    elif isinstance(node, ast.UnaryOp):
+        yield from _events(node.operand)
+        yield ("effect",)
+    elif isinstance(node, ast.Compare) and len(node.ops) == 1:
+        yield from _events(node.left)
+        yield from _events(node.comparators[0])
+        yield ("effect",)
+    elif isinstance(node, ast.Subscript):
+        yield from _events(node.value)
+        yield from _events(node.slice)
+        yield ("effect",)
+    elif isinstance(node, (ast.Tuple, ast.List)):
+        for e in node.elts:
+            if isinstance(e, ast.Starred):
+                yield ("cond",)
+            yield from _events(e)
+    elif isinstance(node, ast.JoinedStr):
+        for v in node.values:
+            yield from _events(v)
+    elif isinstance(node, ast.FormattedValue):
+        yield from _events(node.value)
+        yield ("effect",)
+        yield from _events(node.format_spec)
+    else:
+        yield ("cond",)
+
+
+class _FnNorm:
+    """statement-level rules; needs the whole function (which names are parameters, how often a name occurs)"""
+
+    def __init__(self, fn):
+        a = fn.args
+        self.params = {x.arg for x in a.posonlyargs + a.args + a.kwonlyargs}
+        if a.vararg:
+            self.params.add(a.vararg.arg)
+        if a.kwarg:
+            self.params.add(a.kwarg.arg)
+        self.body = [_ExprNorm().visit(st) for st in fn.body]
+        self.root = ast.Module(body=self.body, type_ignores=[])
+
+    # -- facts about the function as it is now
+    def count(self, ident):
+        return len(_names(self.root, ident))
+
+    def is_local(self, ident):
+        return ident not in self.params and any(not isinstance(n.ctx, ast.Load) for n in _names(self.root, ident))
+
+    def known_list(self, ident):
+        """a local every binding of which is `x = [..]` / `x = [.. for ..]` / `x = list(..)` / `x += ..`: its value is a
+        `list` wherever it is bound"""
+        if not self.is_local(ident):
+            return False
+        stores = [n for n in _names(self.root, ident) if not isinstance(n.ctx, ast.Load)]
+        good = 0
+        for st in ast.walk(self.root):
+            if (isinstance(st, ast.Assign) and len(st.targets) == 1 and isinstance(st.targets[0], ast.Name)
+                    and st.targets[0].id == ident):
+                v = st.value
+                if isinstance(v, (ast.List, ast.ListComp)) or (
+                        isinstance(v, ast.Call) and isinstance(v.func, ast.Name) and v.func.id == "list"):
+                    good += 1
+            # `x += <iterable>` on a list is list.__iadd__: extends in place and rebinds x to the same list
+            if (isinstance(st, ast.AugAssign) and isinstance(st.op, ast.Add) and isinstance(st.target, ast.Name)
+                    and st.target.id == ident):
+                good += 1
+        return good == len(stores)
+
+    def private_list(self, ident):
+        """a known list that is only ever tested, measured, popped, appended to or extended: no alias of it exists, so
+        nobody outside the function can see in which state an exception leaves it"""
+        if not self.known_list(ident):
+            return False
+        parents = {}
+        for p in ast.walk(self.root):
+            for c in ast.iter_child_nodes(p):
+                parents[id(c)] = p
+        for n in _names(self.root, ident):
+            p = parents.get(id(n))
+            if not isinstance(n.ctx, ast.Load):
+                continue
+            if isinstance(p, ast.Attribute) and p.attr in ("pop", "append", "extend") and isinstance(
+                    parents.get(id(p)), ast.Call) and parents[id(p)].func is p:
+                continue
+            if isinstance(p, (ast.While, ast.If)) and p.test is n:
+                continue
+            if _is_len_call(p) and p.args[0] is n:
+                continue
+            if (isinstance(p, ast.Compare) and p.left is n and len(p.ops) == 1
+                    and isinstance(p.comparators[0], ast.List) and not p.comparators[0].elts):
+                continue                                   # `L != []`, `L == []`
+            return False
+        return True
+
+    # -- conditions
+    def test(self, e):
+        """in the test of `if` / `while`: `len(L) > 0` and `L != []` = `L` for a known list L (truth value of a list)"""
+        if isinstance(e, ast.BoolOp):
+            return ast.BoolOp(op=e.op, values=[self.test(v) for v in e.values])
+        if isinstance(e, ast.Compare) and len(e.ops) == 1:
+            l, op, r = e.left, e.ops[0], e.comparators[0]
+            if (isinstance(op, ast.Gt) and _is_len_call(l) and isinstance(l.args[0], ast.Name)
+                    and self.known_list(l.args[0].id) and _is_int_const(r) and r.value == 0):
+                return ast.Name(id=l.args[0].id, ctx=ast.Load())
+            if (isinstance(op, ast.NotEq) and isinstance(l, ast.Name) and self.known_list(l.id)
+                    and isinstance(r, ast.List) and not r.elts):
+                return ast.Name(id=l.id, ctx=ast.Load())
+        return e
+
+    # -- blocks
+    def block(self, stmts):
+        out = []
+        for st in stmts:
+            out.extend(self.stmt(st))
+        return out
+
+    def stmt(self, st):
+        # doc strings / stray string or number literals, `pass`: no effect
+        if isinstance(st, ast.Expr) and isinstance(st.value, ast.Constant):
+            return []
+        if isinstance(st, ast.Pass):
+            return []
+        # `x: T = v` = `x = v`, `x: T` = nothing: annotations of locals are not evaluated inside a function
+        if isinstance(st, ast.AnnAssign) and isinstance(st.target, ast.Name) and st.simple:
+            if st.value is None:
+                return []
+            return self.stmt(ast.Assign(targets=[st.target], value=st.value, lineno=st.lineno))
+        # `x = A if c else B` = `if c: x = A` / `else: x = B`; an arm `x = x` does nothing when `c` has already read x
+        # (so x is bound) -- covers `t = compute() if t is None else t`
+        if (isinstance(st, ast.Assign) and len(st.targets) == 1 and isinstance(st.targets[0], ast.Name)
+                and isinstance(st.value, ast.IfExp)):
+            x, v = st.targets[0].id, st.value
+            reads_x = any(isinstance(n.ctx, ast.Load) for n in _names(v.test, x))
+
+            def arm(val):
+                if isinstance(val, ast.Name) and val.id == x and reads_x:
+                    return []
+                return [ast.Assign(targets=[ast.Name(id=x, ctx=ast.Store())], value=val, lineno=st.lineno)]
+            body, orelse, test = arm(v.body), arm(v.orelse), v.test
+            if not body and orelse:
+                # `if c: pass` / `else: S` = `if not c: S`; only for the negations the expression rules know
+                neg = _ExprNorm().visit(ast.UnaryOp(op=ast.Not(), operand=test))
+                if isinstance(neg, ast.UnaryOp):
+                    return [st]
+                body, orelse, test = orelse, [], neg
+            if body:
+                return self.stmt(ast.If(test=test, body=body, orelse=orelse, lineno=st.lineno))
+            return [st]
+        if isinstance(st, ast.If):
+            body, orelse = self.block(st.body), self.block(st.orelse)
+            test = self.test(st.test)
+            # `else:` / `elif` after a branch that always returns / raises / continues / breaks = no else
+            if orelse and _always_leaves(body):
+                return [ast.If(test=test, body=body, orelse=[], lineno=st.lineno)] + orelse
+            # `if a:` + (only) `if b: S`, no else anywhere = `if a and b: S`: `and` evaluates b only when a is true
+            if not orelse and len(body) == 1 and isinstance(body[0], ast.If) and not body[0].orelse:
+                vals = []
+                for t in (test, body[0].test):
+                    vals.extend(t.values if isinstance(t, ast.BoolOp) and isinstance(t.op, ast.And) else [t])
+                return [ast.If(test=ast.BoolOp(op=ast.And(), values=vals), body=body[0].body, orelse=[],
+                               lineno=st.lineno)]
+            return [ast.If(test=test, body=body or [ast.Pass()], orelse=orelse, lineno=st.lineno)]
+        if isinstance(st, ast.While):
+            return [ast.While(test=self.test(st.test), body=self.block(st.body) or [ast.Pass()],
+                              orelse=self.block(st.orelse), lineno=st.lineno)]
+        if isinstance(st, ast.For):
+            return [ast.For(target=st.target, iter=st.iter, body=self.block(st.body) or [ast.Pass()],
+                            orelse=self.block(st.orelse), type_comment=None, lineno=st.lineno)]
+        if isinstance(st, ast.Try):
+            hs = [ast.ExceptHandler(type=h.type, name=h.name, body=self.block(h.body) or [ast.Pass()], lineno=h.lineno)
+                  for h in st.handlers]
+            return [ast.Try(body=self.block(st.body) or [ast.Pass()], handlers=hs, orelse=self.block(st.orelse),
+                            finalbody=self.block(st.finalbody), lineno=st.lineno)]
+        loop = self.comprehension_to_loop(st)
+        if loop is not None:
+            return [loop]
+        return [st]
+
+    def comprehension_to_loop(self, st):
+        """`L.extend(E for v in IT)` / `L.extend([E for v in IT])` / `L += [E for v in IT]` = `for v in IT: L.append(E)`
+        when L is a private list of the function, L does not occur in E or IT (so it does not matter that the
+        comprehension computes all elements before the first is appended; if IT raises half way the function is left
+        by that exception either way and nobody can see L), and v is not otherwise a name of the function (the loop
+        leaves v bound, the comprehension does not)."""
+        comp = lst = None
+        if (isinstance(st, ast.Expr) and isinstance(st.value, ast.Call) and isinstance(st.value.func, ast.Attribute)
+                and st.value.func.attr == "extend" and isinstance(st.value.func.value, ast.Name)
+                and len(st.value.args) == 1 and not st.value.keywords
+                and isinstance(st.value.args[0], (ast.ListComp, ast.GeneratorExp))):
+            lst, comp = st.value.func.value.id, st.value.args[0]
+        elif (isinstance(st, ast.AugAssign) and isinstance(st.op, ast.Add) and isinstance(st.target, ast.Name)
+              and isinstance(st.value, ast.ListComp)):
+            lst, comp = st.target.id, st.value
+        if comp is None or len(comp.generators) != 1:
+            return None
+        g = comp.generators[0]
+        if g.ifs or g.is_async or not isinstance(g.target, ast.Name):
+            return None
+        v = g.target.id
+        ok = self.private_list(lst)
+        if not ok or _names(comp.elt, lst) or _names(g.iter, lst) or v in self.params:
+            return None
+        if self.count(v) != len(_names(comp, v)):
+            return None
+        call = ast.Call(func=ast.Attribute(value=ast.Name(id=lst, ctx=ast.Load()), attr="append", ctx=ast.Load()),
+                        args=[comp.elt], keywords=[])
+        return ast.For(target=ast.Name(id=v, ctx=ast.Store()), iter=g.iter, body=[ast.Expr(value=call)], orelse=[],
+                       type_comment=None, lineno=st.lineno)
+
+    # -- single-use temporaries
+    def inline_temps(self, stmts):
+        """`x = E` directly followed by a simple statement S that holds the ONLY other occurrence of the local x, read
+        before S does anything that could run code:  = S with E in place of x.  Before the read, S may only have
+        looked up parameters and attributes of them and built constants (ASSUMPTION: such look-ups neither fail nor run
+        code, e.g. `self.add_unbranched_segment_group` -- then E is evaluated at the same point relative to every
+        effect, and x is dead afterwards)."""
+        for blk in self.blocks(stmts):
+            changed = True
+            while changed:
+                changed = False
+                for i in range(len(blk) - 1):
+                    a, s = blk[i], blk[i + 1]
+                    if not (isinstance(a, ast.Assign) and len(a.targets) == 1 and isinstance(a.targets[0], ast.Name)):
+                        continue
+                    x = a.targets[0].id
+                    if x in self.params or self.count(x) != 2 or not isinstance(s, (ast.Assign, ast.Expr, ast.Return)):
+                        continue
+                    uses = [n for n in _names(s, x) if isinstance(n.ctx, ast.Load)]
+                    if len(uses) != 1 or any(e == ("cond",) for e in _events(a.value)):
+                        continue
+                    ok = False
+                    for ev in _events(s):
+                        if ev == ("load", x):
+                            ok = True
+                            break
+                        if ev == ("pure",) or (ev[0] == "load" and ev[1] in self.params):
+                            continue
+                        break
+                    if not ok:
+                        continue
+
+                    class Sub(ast.NodeTransformer):
+                        def visit_Name(self, n):
+                            return a.value if n is uses[0] else n
+                    blk[i:i + 2] = [_ExprNorm().visit(Sub().visit(s))]
+                    changed = True
+                    break
+        return stmts
+
+    def blocks(self, stmts):
+        yield stmts
+        for st in stmts:
+            for f in ("body", "orelse", "finalbody"):
+                sub = getattr(st, f, None)
+                if isinstance(sub, list) and sub and isinstance(sub[0], ast.stmt):
+                    yield from self.blocks(sub)
+            for h in getattr(st, "handlers", []) or []:
+                yield from self.blocks(h.body)
+
+    def guard_clauses(self, body):
+        """at the top level of the function, `if not X: return` followed by the REST of the function = `if X: <rest>`:
+        either way nothing more is done and None is returned when X is false, and the rest runs (and the function ends
+        after it) when X is true.  Only the negations the expression rules know (`not X`, `a is not b`, ...)."""
+        for i in range(len(body) - 2, -1, -1):
+            st = body[i]
+            if not (isinstance(st, ast.If) and not st.orelse and len(st.body) == 1 and isinstance(st.body[0], ast.Return)
+                    and (st.body[0].value is None or (isinstance(st.body[0].value, ast.Constant)
+                                                      and st.body[0].value.value is None))):
+                continue
+            if isinstance(st.test, ast.UnaryOp) and isinstance(st.test.op, ast.Not):
+                pos = st.test.operand
+            else:
+                pos = _ExprNorm().visit(ast.UnaryOp(op=ast.Not(), operand=st.test))
+                if isinstance(pos, ast.UnaryOp):
+                    continue
+            body[i:] = self.stmt(ast.If(test=pos, body=body[i + 1:], orelse=[], lineno=st.lineno))
+        return body
+
+    def run(self):
+        body = self.guard_clauses(self.block(self.body))
+        self.body[:] = body                      # `self.root` sees the current statements
+        self.inline_temps(self.body)
+        return self.body
+
+
+def normalise_function(fn):
+    """the normal form of a function body (a list of statements)"""
+    return _FnNorm(fn).run()
+
+
+# ------------------------------------------------------------------------------------------------ templates
+
+def _fake_fn(src):
+    allp = []
+    for ps in PARAMS.values():
+        allp += [p for p in ps if p not in allp]
+    return ast.parse("def f(%s):\n%s" % (", ".join(allp), "".join("    %s\n" % l for l in src))).body[0]
+
+
+def _template_stmts():
+    out = []
+    for name, src in STATEMENTS.items():
+        body = normalise_function(_fake_fn([src]))
+        assert len(body) == 1, (name, src)
+        out.append(([name], body[0], frozenset()))
+    for run in RUNS:
+        fn = _fake_fn([STATEMENTS[n] for n in run])
+        before = {n.id for n in ast.walk(fn) if isinstance(n, ast.Name)}
+        body = normalise_function(fn)
+        if len(body) != 1:
+            continue                                 # this sub-run does not collapse into one statement
+        gone = before - {n.id for n in ast.walk(body[0]) if isinstance(n, ast.Name)}
+        out.append((list(run), body[0], frozenset(gone)))
+    return out
+
+
+def _template_exprs(table):
+    return [([name], _ExprNorm().visit(ast.parse(src, mode="eval").body), frozenset()) for name, src in table.items()]
+
+
+STMT_TEMPLATES = _template_stmts()
+COND_TEMPLATES = _template_exprs(CONDITIONS)
+ITER_TEMPLATES = _template_exprs(ITERABLES)
+
+
+class Unifier:
+    """match a source node against the templates MODULO a renaming of the function's locals.  One renaming for the whole
+    function, a bijection between the locals of the source function and (some of) the canonical locals; every name that
+    is not a local on both sides (parameters, builtins, attributes, keywords) must be literally equal, and a source
+    local never matches a non-local.  Consistently renaming ALL occurrences of local variables by an injective map onto
+    names that do not otherwise occur is alpha-conversion: it cannot change behaviour (the vocabulary has no
+    `locals()`, `eval`, nested scopes or `global`, and what is not in the vocabulary is refused)."""
+
+    def __init__(self, fname, src_locals):
+        self.canon_locals = set(CANON_LOCALS[fname])
+        self.visible = self.canon_locals | set(PARAMS[fname])
+        self.src_locals = set(src_locals)
+        self.env, self.inv = {}, {}
+        self.eliminated = set()
+
+    def eligible(self, tnode):
+        return all(n.id in self.visible for n in ast.walk(tnode) if isinstance(n, ast.Name) and n.id in ALL_VARS)
+
+    def _unify(self, t, s, env, inv):
+        if type(t) is not type(s):
+            return False
+        if isinstance(t, ast.Name):
+            if type(t.ctx) is not type(s.ctx):
+                return False
+            tl, sl = t.id in self.canon_locals, s.id in self.src_locals
+            if tl != sl:
+                return False
+            if not tl:
+                return t.id == s.id
+            if env.get(s.id, t.id) != t.id or inv.get(t.id, s.id) != s.id:
+                return False
+            env[s.id], inv[t.id] = t.id, s.id
+            return True
+        for f in t._fields:
+            a, b = getattr(t, f, None), getattr(s, f, None)
+            if isinstance(a, list):
+                if not isinstance(b, list) or len(a) != len(b):
+                    return False
+                for x, y in zip(a, b):
+                    if isinstance(x, ast.AST):
+                        if not self._unify(x, y, env, inv):
+                            return False
+                    elif x != y:
+                        return False
+            elif isinstance(a, ast.AST):
+                if not isinstance(b, ast.AST) or not self._unify(a, b, env, inv):
+                    return False
+            elif a != b:
+                return False
+        return True
+
+    def match(self, templates, node):
+        """-> list of primitive names | None (nothing matches) | "ambiguous" """
+        hits = []
+        for names, tnode, gone in templates:
+            if not self.eligible(tnode):
+                continue
+            env, inv = dict(self.env), dict(self.inv)
+            if self._unify(tnode, node, env, inv):
+                hits.append((names, env, inv, gone))
+        if not hits:
+            return None
+        if len({tuple(h[0]) for h in hits}) > 1:
+            return "ambiguous"
+        names, self.env, self.inv, gone = hits[0]
+        self.eliminated |= gone
+        return names
+
+    def name(self, canon, src):
+        """a single binding occurrence (the `for` target)"""
+        t, s = ast.Name(id=canon, ctx=ast.Store()), ast.Name(id=src, ctx=ast.Store())
+        env, inv = dict(self.env), dict(self.inv)
+        if self._unify(t, s, env, inv):
+            self.env, self.inv = env, inv
+            return True
+        return False
 
 
 class Tr:
     def __init__(self, label):
         self.label = label
         self.gaps = []
+        self.u = None
 
     def gap(self, node, why):
         self.gaps.append("%s: line %s: %s" % (self.label, getattr(node, "lineno", "?"), why))
-        return "unsupported"
+        return ["unsupported"]
 
     def cond(self, e):
-        name = COND_DUMPS.get(_dump(e))
-        if name is None:
+        names = self.u.match(COND_TEMPLATES, e)
+        if names is None or names == "ambiguous":
             self.gap(e, "condition not in the vocabulary: %s" % ast.unparse(e))
             return "(fun _ => false)"
-        return name
+        return names[0]
 
     def block(self, stmts, ind):
         items = []
-        for k, st in enumerate(stmts):
-            if k == 0 and isinstance(st, ast.Expr) and isinstance(st.value, ast.Constant) and isinstance(st.value.value, str):
-                continue                                   # doc string
-            items.append(self.stmt(st, ind + 2))
+        for st in stmts:
+            items.extend(self.stmt(st, ind + 2))
         pad = " " * ind
         if not items:
             return "skip"
@@ -113,31 +742,34 @@ class Tr:
         if isinstance(st, ast.While):
             if st.orelse:
                 return self.gap(st, "while ... else")
-            return "whileC %s (%s)" % (self.cond(st.test), self.block(st.body, ind))
+            return ["whileC %s (%s)" % (self.cond(st.test), self.block(st.body, ind))]
         if isinstance(st, ast.If):
             if st.orelse:
                 return self.gap(st, "if with else/elif")
-            return "ifC %s (%s)" % (self.cond(st.test), self.block(st.body, ind))
+            return ["ifC %s (%s)" % (self.cond(st.test), self.block(st.body, ind))]
         if isinstance(st, ast.Try):
             if st.orelse or st.finalbody or len(st.handlers) != 1:
                 return self.gap(st, "try with else / finally / several handlers")
             h = st.handlers[0]
-            if not (isinstance(h.type, ast.Name) and h.type.id == "KeyError" and h.name is None):
+            if not (isinstance(h.type, ast.Name) and h.type.id == "KeyError" and h.name is None
+                    and "KeyError" not in self.u.src_locals):
                 return self.gap(st, "handler is not a bare `except KeyError:`")
-            return "tryKeyError (%s) (%s)" % (self.block(st.body, ind), self.block(h.body, ind))
+            return ["tryKeyError (%s) (%s)" % (self.block(st.body, ind), self.block(h.body, ind))]
         if isinstance(st, ast.For):
             if st.orelse:
                 return self.gap(st, "for ... else")
-            if not (isinstance(st.target, ast.Name) and st.target.id == "child"):
-                return self.gap(st, "for target is not `child`")
-            it = ITER_DUMPS.get(_dump(st.iter))
-            if it is None:
+            if not (isinstance(st.target, ast.Name) and self.u.name("child", st.target.id)):
+                return self.gap(st, "for target is not (a local standing for) `child`")
+            it = self.u.match(ITER_TEMPLATES, st.iter)
+            if it is None or it == "ambiguous":
                 return self.gap(st, "iterable not in the vocabulary: %s" % ast.unparse(st.iter))
-            return "forEach %s (%s)" % (it, self.block(st.body, ind))
-        name = STMT_DUMPS.get(_dump(st))
-        if name is None:
+            return ["forEach %s (%s)" % (it[0], self.block(st.body, ind))]
+        names = self.u.match(STMT_TEMPLATES, st)
+        if names is None:
             return self.gap(st, "statement not in the vocabulary: %s" % ast.unparse(st).split("\n")[0][:100])
-        return name
+        if names == "ambiguous":
+            return self.gap(st, "statement matches several primitives: %s" % ast.unparse(st).split("\n")[0][:100])
+        return list(names)
 
     def function(self, fn):
         want = PARAMS[fn.name]
@@ -147,7 +779,17 @@ class Tr:
             self.gap(fn, "parameters %s, expected %s" % (have, want))
         if fn.decorator_list:
             self.gap(fn, "decorated")
-        return have, self.block(fn.body, 2)
+        body = normalise_function(fn)
+        src_locals = {n.id for st in body for n in ast.walk(st)
+                      if isinstance(n, ast.Name) and not isinstance(n.ctx, ast.Load)} - set(have)
+        self.u = Unifier(fn.name, src_locals)
+        text = self.block(body, 2)
+        # a canonical local that a matched RUN binds on the way (inlined away in the normal form) must not ALSO stand
+        # for a source local: the canonical program would overwrite it where the source does not
+        clash = sorted(self.u.eliminated & set(self.u.inv))
+        if clash:
+            self.gap(fn, "canonical local(s) %s are both inlined away and in use" % clash)
+        return have, text
 
 
 def find_in_nml(tree):
